@@ -259,4 +259,12 @@ Eval(e, c) ==
 Matches(P, n, c) ==
   \E a \in Axis(c.f, "ancestor-or-self", n) :
      LET v == Eval(P, [c EXCEPT !.n = a, !.pos = 1, !.size = 1]) IN v.t = "ns" /\ n \in v.v
+
+(* the set of nodes of document d that match P, computed with one evaluation per candidate       *)
+(* ancestor (the same definition, rearranged; MC_XPath checks the two coincide)                  *)
+MatchSet(P, d, c) ==
+  LET D == c.f[d]
+      all == {Node(d, i) : i \in 1..D.n}
+      sel(a) == LET v == Eval(P, [c EXCEPT !.n = a, !.pos = 1, !.size = 1]) IN IF v.t = "ns" THEN v.v ELSE {}
+  IN UNION {{n \in sel(a) : a \in Axis(c.f, "ancestor-or-self", n)} : a \in all}
 =============================================================================
